@@ -269,7 +269,13 @@ def classify_event(ev: dict[str, Any]) -> list[tuple[str, str]]:
         site = death_site(p.get("log", ""))
         if site == "no-traceback":
             site = f"no-traceback:{how_exited(p.get('waitstatus'))}:after={label}"
-        out.append((f"daemon-died:{site}", f"daemon process exited after client fault '{label}' ({how_exited(p.get('waitstatus'))})"))
+        # did it die while serving the hostile connection, or only on the NEXT (well-formed) one?
+        hostile_done = bool(((ev.get("hostile") or {}).get("reply") or {}).get("final"))
+        phase = "on-next-connection" if hostile_done and fam == "pipelined" else "on-faulty-connection"
+        out.append((f"daemon-died:{phase}:{site}",
+                    f"daemon process exited after client fault '{label}' ({how_exited(p.get('waitstatus'))}"
+                    + (", the hostile client itself had been answered; bytes it left behind broke the next client's connection)"
+                       if phase == "on-next-connection" else ")")))
         if p.get("status_file_names_dead_pid"):
             out.append((f"status-file-left:after-death:{site}",
                         f"daemon exited after '{label}' but the status file still names its pid"))
